@@ -181,7 +181,9 @@ func c07TokenAt(text string, line, col int) (string, bool) {
 	return "?", true
 }
 
-func isNameStart(c byte) bool { return isNameByte(c) || c == '$' || c == '@' || c == '"' || c == '.' || c == '-' }
+func isNameStart(c byte) bool {
+	return isNameByte(c) || c == '$' || c == '@' || c == '"' || c == '.' || c == '-'
+}
 
 var c07PosRe = regexp.MustCompile(`\d+:\d+`)
 var c07AtomRe = regexp.MustCompile(`[^A-Za-z0-9:_\-]`)
@@ -208,7 +210,8 @@ func c07StdJSON(v interface{}, indent int) string {
 
 // input: (exec ...sections... (layouts n...) (lseed n) (garble n))
 // observed: (layouts (lay style (r keysok datakind (errs E...) (json a b c))...)...)
-//   E = (e path loc kind (env msgok pathok locok) tok)
+//
+//	E = (e path loc kind (env msgok pathok locok) tok)
 func c07Exec(input sx.S) (obs sx.S) {
 	secs := sx.List(input)[1:]
 	execNastyStrings = true
